@@ -531,6 +531,12 @@ class FxGrammar(Case):
         for text, value in ex:
             hist = [rng.choice(bad_inputs), rng.choice(ex)[0]] if rng.random() < 0.5 else [rng.choice(bad_inputs)]
             yield ("expr", "grammar", {"text": text, "value": value, "history": hist}, (lambda t=text, v=value, h=hist: one(t, v, h)))
+        # every spelling of a number that Python's float() reads (what QcVariableConfig validates tokens with):
+        # bare trailing point, exponent forms, leading zeros - alone and inside each kind of expression
+        S = self.STATS
+        for tok, val in (("3.", 3.0), ("10.", 10.0), ("2.e1", 20.0), ("1.5e+2", 150.0), ("7E-1", 0.7), ("0.25", 0.25), ("12", 12.0), ("007", 7.0), ("1e0", 1.0), ("4.E0", 4.0)):
+            for text, value in ((tok, val), ("max + %s" % tok, S["max"] + val), ("mean - %s * std" % tok, S["mean"] - val * S["std"]), ("( max - min ) / %s" % tok, (S["max"] - S["min"]) / val), ("- %s + min" % tok, -val + S["min"]), ("%s*%s" % (tok, tok), val * val)):
+                yield ("expr", "grammar", {"text": text, "value": value, "history": []}, (lambda t=text, v=value: one(t, v, [])))
 
     def replay_bounded(self, label, values):
         from pyvc import replay
